@@ -160,6 +160,14 @@ func (c *backupClient) PostCall(e *Engine, st *State, call *ast.CallExpr, callee
 }
 
 func (c *backupClient) PostAssign(e *Engine, st *State, lhs, rhs []ast.Expr, _ ast.Stmt) *State {
+	// tokens = append(tokens, ...): this iteration produced a token
+	if c.tokenT != nil && len(lhs) == 1 && len(rhs) == 1 && len(e.Frames()) == 0 {
+		if call, ok := ast.Unparen(rhs[0]).(*ast.CallExpr); ok && IsBuiltinCall(e.Info, call, "append") {
+			if sl, ok := e.Info.TypeOf(lhs[0]).Underlying().(*types.Slice); ok && types.Identical(sl.Elem(), c.tokenT) && st.Ext("tok:emitted") != "1" {
+				return st.WithExt("tok:emitted", "1")
+			}
+		}
+	}
 	if len(rhs) != 1 || len(lhs) != 2 {
 		return nil
 	}
@@ -176,13 +184,141 @@ func (c *backupClient) PostAssign(e *Engine, st *State, lhs, rhs []ast.Expr, _ a
 	if id, ok := lhs[0].(*ast.Ident); ok && id.Name != "_" {
 		if k := e.Canon(id); k.OK {
 			st = st.WithExt("lastnextval:"+rk, k.Key)
+			if c.tokenT != nil && len(e.Frames()) == 0 && st.Ext("iterfirst") == "" {
+				st = st.WithExt("iterfirst", k.Key) // the character this iteration of the scan loop dispatches on
+			}
 		}
 	}
 	return st
 }
 
-// Visit records Token literals with the path facts (used by C09/tables for Scan).
+// LoopHead / LoopBack (Scan only): an iteration that dispatched on a character of the documented operator table ends
+// with a token appended - a documented lexeme is never swallowed (only white space and // comments are).
+func (c *backupClient) LoopHead(e *Engine, st *State, loop ast.Stmt) *State {
+	if c.tokenT == nil || !c.isScanLoop(e, loop) {
+		return nil
+	}
+	return st.WithExt("iterfirst", "").WithExt("tok:emitted", "")
+}
+
+func (c *backupClient) isScanLoop(e *Engine, loop ast.Stmt) bool {
+	return e.P.Parent(e.P.Parent(loop)) == ast.Node(e.Func)
+}
+
+func (c *backupClient) LoopBack(e *Engine, st *State, loop ast.Stmt) {
+	if c.tokenT == nil || !c.isScanLoop(e, loop) || !e.Reporting() {
+		return
+	}
+	k := st.Ext("iterfirst")
+	if k == "" {
+		return
+	}
+	f := st.GetVar(k)
+	if (f == nil || !f.HasEq) && st.Ext("tok:emitted") != "1" {
+		// a class of characters passed over without a token: the predicate known to hold for the character
+		// must be exactly the white-space class
+		kk := k
+		if a := st.Get("val:" + k); a != nil && a.Alias != nil {
+			kk = a.Alias.Key
+		}
+		for _, key := range st.Keys() {
+			if !strings.HasPrefix(key, "call:") || !strings.HasSuffix(key, "("+kk+")") {
+				continue
+			}
+			if g := st.Get(key); g == nil || !g.HasEq || g.Eq != "true" {
+				continue
+			}
+			name := strings.TrimSuffix(strings.TrimPrefix(key, "call:"), "("+kk+")")
+			site := fmt.Sprintf("%s white-space class %s", c.fn, name)
+			if name == "unicode.IsSpace" {
+				e.Site("C09/classes", site, loop, true, "characters passed over without a token are exactly unicode.IsSpace")
+				return
+			}
+			bad := ""
+			if i := strings.LastIndex(name, "."); i >= 0 {
+				if fd := c.p.FuncDecl(c.p.Parser, name[i+1:]); fd != nil {
+					for r := rune(0); r < 0x3100 && bad == ""; r++ {
+						got, ok := evalRunePred(c.p, fd, r, 0)
+						if !ok {
+							bad = "the predicate cannot be evaluated"
+						} else if got != unicode.IsSpace(r) {
+							bad = fmt.Sprintf("%s(%q) is %v but unicode.IsSpace says %v", name, r, got, unicode.IsSpace(r))
+						}
+					}
+				} else {
+					bad = "unknown predicate"
+				}
+			}
+			e.Site("C09/classes", site, loop, bad == "", "agrees with unicode.IsSpace on U+0000..U+30FF")
+			if bad != "" {
+				e.Site("C09/classes", site, loop, false, "the class of characters the lexer passes over as white space differs from the documented one: "+bad)
+			}
+			return
+		}
+		return
+	}
+	if f == nil || !f.HasEq {
+		return
+	}
+	n, ok := parseInt(f.Eq)
+	if !ok {
+		return
+	}
+	ch := string(rune(n))
+	_, one := docOneChar[ch]
+	_, two := docTwoChar[ch]
+	if !one && !two {
+		// any other character that is passed over without a token must be white space
+		if st.Ext("tok:emitted") != "1" {
+			okSp := unicode.IsSpace(rune(n))
+			e.Site("C09/classes", fmt.Sprintf("%s skips %q without a token", c.fn, ch), loop, okSp, "white space")
+			if !okSp {
+				e.Site("C09/classes", fmt.Sprintf("%s skips %q without a token", c.fn, ch), loop, false, "a character that is not white space is passed over without a token or an error token")
+			}
+		}
+		return
+	}
+	key := fmt.Sprintf("%s every path for %q appends a token", c.fn, ch)
+	emitted := st.Ext("tok:emitted") == "1"
+	if ch == "/" && !emitted {
+		// `//` comments: the second character is known to be '/'
+		if vk := st.Ext("lastnextval:" + c.scanRecv(st)); vk != "" {
+			if g := st.GetVar(vk); g != nil && g.HasEq && g.Eq == runeKey("/") {
+				return
+			}
+		}
+	}
+	e.Site("C09/tables", key, loop, emitted, "an iteration that read this character ends with a token appended")
+	if !emitted {
+		e.Site("C09/tables", key, loop, false, fmt.Sprintf("a path of the scan loop that read %q goes round again without appending a token: a documented lexeme (or what follows it) would be swallowed, so the token sequence depends on layout", ch))
+	}
+}
+
+func (c *backupClient) scanRecv(st *State) string {
+	for k := range st.ext {
+		if strings.HasPrefix(k, "lastnextval:") {
+			return strings.TrimPrefix(k, "lastnextval:")
+		}
+	}
+	return ""
+}
+
+// Visit records Token literals with the path facts (used by C09/tables for Scan) and notes that this iteration of
+// the scan loop produced a token.
 func (c *backupClient) Visit(e *Engine, st *State, n ast.Node) *State {
+	cl, ok := n.(*ast.CompositeLit)
+	if !ok || c.tokenT == nil || !types.Identical(e.Info.TypeOf(cl), c.tokenT) {
+		return nil
+	}
+	c.recordToken(e, st, n)
+	if st.Ext("tok:emitted") != "1" {
+		return st.WithExt("tok:emitted", "1")
+	}
+	return nil
+}
+
+// Visit records Token literals with the path facts (used by C09/tables for Scan).
+func (c *backupClient) recordToken(e *Engine, st *State, n ast.Node) *State {
 	cl, ok := n.(*ast.CompositeLit)
 	if !ok || c.tokenT == nil || !e.Reporting() || !types.Identical(e.Info.TypeOf(cl), c.tokenT) {
 		return nil
